@@ -12,7 +12,69 @@ use std::panic::{catch_unwind, AssertUnwindSafe};
 use std::sync::{mpsc, Arc, Barrier};
 use std::time::Duration;
 
+/// First simultaneous use of ONE lazily compiled partial that takes long to compile: all threads are
+/// released together and touch it at once, so that every thread finds the cache empty.
+fn hot_first_touch(ctx: &mut Ctx) {
+    let rounds = if ctx.tier_thorough { 400 } else { 40 };
+    let junk: String = std::iter::repeat("{{ 1 | plus: 2 }}{% assign q = 'z' %}").take(4000).collect();
+    let big: Vec<Node> = vec![Node::Comment(junk), text("<big:"), Node::Incr("n".into()), text(">")];
+    let partials: Vec<PartialDef> = vec![("big".into(), Ok(big)), ("broken".into(), Err(format!("{}{{% if %}}", "{{ 1 }}".repeat(4000))))];
+    let templates: Vec<Vec<Node>> = vec![
+        vec![text("a"), Node::Include(lit_s("big"), vec![]), Node::Render(lit_s("big"), RForm::Plain, vec![])],
+        vec![Node::Render(lit_s("big"), RForm::Plain, vec![]), text("b")],
+        vec![text("c"), Node::Include(lit_s("broken"), vec![])],
+    ];
+    let texts: Arc<Vec<String>> = Arc::new(templates.iter().map(|t| src_tmpl(t)).collect());
+    let data = Arc::new(liquid_core::model::Object::new());
+    let reference: Vec<Obs> = texts.iter().map(|t| render_text(&build_parser(&partials, Policy::Lazy), t, &data)).collect();
+    let mut rng = crate::rng::Rng::new(ctx.seed ^ 0x407_C20);
+    let mut worst = "hot".to_string();
+    for _ in 0..rounds {
+        let shared = Arc::new(build_parser(&partials, Policy::Lazy));
+        let nthreads = 4 + rng.below(13);
+        let barrier = Arc::new(Barrier::new(nthreads));
+        let (tx, rx) = mpsc::channel::<(usize, String)>();
+        for th in 0..nthreads {
+            let (shared, barrier, texts, data, tx) = (shared.clone(), barrier.clone(), texts.clone(), data.clone(), tx.clone());
+            let ti = th % texts.len();
+            std::thread::spawn(move || {
+                barrier.wait();
+                let obs = render_text(&shared, &texts[ti], &data);
+                let _ = tx.send((ti, obs.tokens()));
+            });
+        }
+        drop(tx);
+        let mut got = Vec::new();
+        let mut deadlock = false;
+        for _ in 0..nthreads {
+            match rx.recv_timeout(Duration::from_secs(30)) {
+                Ok(v) => got.push(v),
+                Err(_) => {
+                    deadlock = true;
+                    break;
+                }
+            }
+        }
+        let after: Vec<Obs> = if deadlock { vec![] } else { texts.iter().map(|t| render_text(&shared, t, &data)).collect() };
+        let poisoned = !deadlock && after.iter().zip(reference.iter()).any(|(a, b)| a.tokens() != b.tokens());
+        let mismatch = got.iter().filter(|(ti, o)| *o != reference[*ti].tokens()).count();
+        if deadlock {
+            worst = "DEADLOCK".into();
+        } else if poisoned && !worst.starts_with("DEADLOCK") {
+            worst = "POISONED".into();
+        } else if mismatch > 0 && worst == "hot" {
+            worst = format!("MISMATCH:{}", mismatch);
+        }
+    }
+    // one line per template: the sequential result is what the model must predict; the label says
+    // whether any of the concurrent rounds deviated from it
+    for (ti, t) in templates.iter().enumerate() {
+        ctx.emit(render_case("c20", &worst, t, &data, &partials, &reference[ti]));
+    }
+}
+
 pub fn run(ctx: &mut Ctx) {
+    hot_first_touch(ctx);
     let rounds = if ctx.tier_thorough { 20_000 } else { 250 };
     let mut g = Gen::new(ctx.seed ^ 0xC20);
     for round in 0..rounds {
